@@ -41,7 +41,7 @@ theorem run_length_le {cfg : Cfg} : ∀ (ls : List Label) (s s' : St), Reachable
       omega
 
 def obliged : Label → Bool
-  | .cancel | .fOpenErr | .fEmitErr | .cStop | .cFail | .cRepull => false
+  | .cancel | .fOpenErr | .fEmitErr | .cStop | .cFail | .cRepull | .cOpenFail => false
   | _ => true
 
 /-- The filler can move unless it is done — provided the channel is empty or ctx1 is cancelled. -/
